@@ -67,8 +67,8 @@ Proof. exact merge_pinned_refuted. Qed.
 (* non-vacuity: the third End-of-RIB path (an MP_UNREACH_NLRI without route, written without the extended
    length bit) and an UPDATE carrying only an unrecognised non-transitive attribute *)
 Example C02_example :
-  dec_update no_opq (mkS true [(1,1);(2,1)] []) [0;0;0;6;128;15;3;0;2;1] = EndOfRib 2 1
-  /\ dec_update no_opq (mkS true [(1,1);(2,1)] []) [0;0;0;3;128;99;0] = EndOfRib 1 1.
+  dec_update no_opq (mkS true [(1,1);(2,1)] [] []) [0;0;0;6;128;15;3;0;2;1] = EndOfRib 2 1
+  /\ dec_update no_opq (mkS true [(1,1);(2,1)] [] []) [0;0;0;3;128;99;0] = EndOfRib 1 1.
 Proof. exact eor_third_path. Qed.
 
 Print Assumptions C02_agrees_with_reference_attributes.
